@@ -101,7 +101,7 @@ def main():
             shutil.copy(patch, os.path.join(target, "patch.diff"))
             shutil.copy(demo, os.path.join(target, "demo.py"))
         meta.update({
-            "breaks_property": meta.get("property"),
+            "breaks_property": meta.get("breaks_property", meta.get("property")),
             "confirmed_on_repo_commit": report["repo_commit"],
             "what_was_run": report["ran"],
             "pytest_with_change": report["pytest_with_change"].strip(),
